@@ -284,6 +284,8 @@ class Crazyflie():
         if (self.link is not None):
             self.link.close()
             self.link = None
+        for timer in self._answer_patterns.values():
+            timer.cancel()
         self._answer_patterns = {}
         self.disconnected.call(self.link_uri)
         self.state = State.DISCONNECTED
